@@ -43,6 +43,10 @@ CONSTANTS Tree,        \* "std" | "deep" | "par" (three leaves running in parall
           CallMode,    \* "subsets": any increasing list of variables (above) | "final": the one call that passes every option value
                        \* no later statement derives from (what user code does with the options it has built)
           SubKind,     \* what the nested graphs are built with: "graph" | "chain" | "workflow" (the harness builds them so)
+          AllowIntr,   \* TRUE: the case is "interrupted run + resuming call": the graph is compiled with a checkpoint store and ONE interrupt mark
+                       \* (before / after a leaf, possibly inside a nested graph); call 1 runs up to the mark, call 2 (same checkpoint id,
+                       \* its own options) resumes.  Needs NCalls = 2 and a path universe without invalid paths (PU = 3).
+          RestoreDropsOpts, \* seeded variant of restoreTasks: tasks rebuilt from the checkpoint do not get the resuming call's options
           CopyFix,
           CbCopyFix,       \* TRUE = AppendHandlers as it stands (copies the inherited handler list); FALSE = seeded variant / old D4:
                            \* append(cbm.handlers, designated...) in place
@@ -68,7 +72,8 @@ UnitSet == Range(UnitSeq)
 Kids(g) == SelectSeq(UnitSeq, LAMBDA u : u.parent = g)          \* in chain order
 KeyOf(u) == u.path[Len(u.path)]
 PathU ==
-  IF Tree = "par" THEN (IF PU <= 1 THEN {<<"p1">>, <<"p2">>} ELSE {<<"p1">>, <<"p2">>, <<"p3">>, <<"zz">>})
+  IF PU = 3 THEN {u.path : u \in {x \in UnitSet : x.parent # ""}}            \* every node and nested graph, nothing invalid
+  ELSE IF Tree = "par" THEN (IF PU <= 1 THEN {<<"p1">>, <<"p2">>} ELSE {<<"p1">>, <<"p2">>, <<"p3">>, <<"zz">>})
   ELSE IF Tree = "std"
   THEN (IF PU = 0 THEN {<<"a">>, <<"sub", "s1">>, <<"zz">>}
         ELSE IF PU = 1 THEN {<<"a">>, <<"sub">>, <<"sub", "s1">>, <<"zz">>}
@@ -78,11 +83,25 @@ PathU ==
 PathLists == UNION {{s \in [1..k -> PathU] : \A i, j \in 1..k : i # j => s[i] # s[j]} : k \in 1..MaxPer}
 
 \* ------------------------------------------------------------------ state
-VARIABLES phase, prog, vals, heap, na, calls, S
-vars == <<phase, prog, vals, heap, na, calls, S>>
+VARIABLES phase, prog, vals, heap, na, calls, S, intr
+vars == <<phase, prog, vals, heap, na, calls, S, intr>>
+\* intr = [u, after]: interrupt before (after = FALSE) / after (TRUE) leaf u; u = "" none
+NoIntr == [u |-> "", after |-> FALSE]
+LeafSeq == SelectSeq(UnitSeq, LAMBDA u : ~u.graph)                 \* = execution order (every level is a chain)
+LeafIdx(id) == CHOOSE i \in 1..Len(LeafSeq) : LeafSeq[i].u = id
+LastOfItsGraph(id) == ~\E j \in 1..Len(UnitSeq) : UnitSeq[j].parent = (CHOOSE x \in UnitSet : x.u = id).parent
+                                                    /\ j > (CHOOSE i \in 1..Len(UnitSeq) : UnitSeq[i].u = id)
+IntrChoices == IF ~AllowIntr THEN {NoIntr}
+               ELSE {[u |-> LeafSeq[i].u, after |-> FALSE] : i \in 1..Len(LeafSeq)}
+                    \cup {[u |-> LeafSeq[i].u, after |-> TRUE] : i \in {j \in 1..Len(LeafSeq) : ~LastOfItsGraph(LeafSeq[j].u)}}
+\* first leaf that executes in the resuming call
+FirstRes == IF intr.after THEN LeafIdx(intr.u) + 1 ELSE LeafIdx(intr.u)
+ExecIn(k, id) == intr.u = "" \/ (IF k = 1 THEN LeafIdx(id) < FirstRes ELSE LeafIdx(id) >= FirstRes)
+\* the tasks restoreTasks rebuilds in call 2, at every level: the unit on the way to the first resumed leaf
+Restored(k, u) == intr.u # "" /\ k = 2 /\ IsPrefix(u.path, LeafSeq[FirstRes].path)
 \* vals[i] = [typ, id, s]  the Go value of variable i (s = paths slice header)
 
-Init == phase = "prog" /\ prog = <<>> /\ vals = <<>> /\ heap = EmptyHeap /\ na = 1 /\ calls = <<>> /\ S = Idle
+Init == phase = "prog" /\ prog = <<>> /\ vals = <<>> /\ heap = EmptyHeap /\ na = 1 /\ calls = <<>> /\ S = Idle /\ intr = NoIntr
 
 NNew == Cardinality({i \in 1..Len(prog) : prog[i].op = "new"})
 AddNew(t) ==
@@ -90,14 +109,14 @@ AddNew(t) ==
   /\ LET id == "o" \o ToString(NNew + 1) IN
        /\ prog' = Append(prog, [op |-> "new", typ |-> t, id |-> id])
        /\ vals' = Append(vals, [typ |-> t, id |-> id, s |-> NilSlice])        \* make([]*NodePath, 0) / nil
-  /\ UNCHANGED <<phase, heap, na, calls, S>>
+  /\ UNCHANGED <<phase, heap, na, calls, S, intr>>
 AddDes(from, ps) ==
   /\ phase = "prog" /\ Len(prog) < MaxStmts /\ from \in 1..Len(prog) /\ from > Len(prog) - Window
   /\ LET r == IF CopyFix THEN CopyAppend(heap, vals[from].s, ps, na) ELSE GoAppend(heap, vals[from].s, ps, na, 8) IN
        /\ heap' = r.h /\ na' = r.na
        /\ vals' = Append(vals, [vals[from] EXCEPT !.s = r.s])
   /\ prog' = Append(prog, [op |-> "des", from |-> from, paths |-> ps])
-  /\ UNCHANGED <<phase, calls, S>>
+  /\ UNCHANGED <<phase, calls, S, intr>>
 
 IncSeqs(n, k) == {s \in [1..k -> {i \in 1..n : i > n - CallWindow}] : \A i \in 1..(k - 1) : s[i] < s[i + 1]}
 FinalVars == SelectSeq([i \in 1..Len(prog) |-> i], LAMBDA i : ~\E j \in 1..Len(prog) : prog[j].op = "des" /\ prog[j].from = i)
@@ -175,12 +194,15 @@ RunKids(k, g, os, inh, kids, ex) ==
   IF kids = <<>> THEN [err |-> FALSE, lines |-> <<>>]
   ELSE LET u == Head(kids)
            cbs == IF Tree = "par" /\ g = "top" THEN ParCbs(os, Kids(g))[u.u] ELSE inh \cup NodeCbs(os, KeyOf(u))
+           \* runner.restoreTasks: `if opt, ok := optMap[key]; ok { newTask.option = opt }` -- the rebuilt task carries the options the
+           \* RESUMING call addressed to it (as every freshly created task does); RestoreDropsOpts: it carries none
+           mu == IF RestoreDropsOpts /\ Restored(k, u) THEN <<>> ELSE ex.m[u.u]
        IN IF u.graph
-          THEN LET r == RunG(k, u.u, ex.m[u.u], cbs) IN
+          THEN LET r == RunG(k, u.u, mu, cbs) IN
                IF r.err THEN r
                ELSE LET rest == RunKids(k, g, os, inh, Tail(kids), ex) IN [err |-> rest.err, lines |-> r.lines \o rest.lines]
           ELSE LET rest == RunKids(k, g, os, inh, Tail(kids), ex) IN
-               [err |-> rest.err, lines |-> <<[ev |-> "node", call |-> k, u |-> u.u, got |-> ex.m[u.u], cbs |-> SetToSeq(cbs)]>> \o rest.lines]
+               [err |-> rest.err, lines |-> <<[ev |-> "node", call |-> k, u |-> u.u, got |-> mu, cbs |-> SetToSeq(cbs)]>> \o rest.lines]
 RunG(k, g, os, inh) ==
   LET ex == Extract(g, os, [err |-> FALSE, m |-> [u \in {x.u : x \in Range(Kids(g))} |-> <<>>]]) IN
   IF ex.err THEN [err |-> TRUE, lines |-> <<>>] ELSE RunKids(k, g, os, inh, Kids(g), ex)
@@ -189,21 +211,26 @@ RunCall(k) ==
   LET os == [j \in 1..Len(calls[k]) |-> GoOpt(calls[k][j])]
       inh == {os[j].id : j \in {x \in 1..Len(os) : os[x].typ = "cb" /\ Len(os[x].paths) = 0}}
       r == RunG(k, "top", os, inh)
-  IN r.lines \o <<[ev |-> "ret", call |-> k, err |-> r.err]>>
+      \* interrupted run: call 1 executes the leaves in front of the mark and returns the interrupt error, call 2 the others
+      mine == SelectSeq(r.lines, LAMBDA ln : ExecIn(k, ln.u))
+  IN mine \o <<[ev |-> "ret", call |-> k, err |-> IF intr.u = "" THEN r.err ELSE k = 1]>>
 \* a sub-run that fails still let the nodes in front of it run: RunKids returns the error of the failing graph node only,
 \* the lines of the leaves before it are kept by the caller
-CaseLine == [ev |-> "case", id |-> "m", tree |-> Tree, units |-> UnitSeq, prog |-> prog, calls |-> calls]
+CaseLine == [ev |-> "case", id |-> "m", tree |-> Tree, units |-> UnitSeq, prog |-> prog, calls |-> calls, intr |-> intr.u, intrafter |-> intr.after]
 
 Close ==
   /\ phase = "prog" /\ Len(prog) > 0 /\ Len(prog) >= MinStmts
   /\ \E cs \in [1..NCalls -> CallLists] :
        /\ (NCalls = 2 => cs[1] # cs[2])
        /\ calls' = cs
+       \* interrupted runs: both calls carry valid designations only (an option error would end the call before / instead of the interrupt)
+       /\ (AllowIntr => \A k \in 1..NCalls : ~ExpErr([units |-> UnitSeq, prog |-> prog, calls |-> cs], k))
+  /\ intr' \in IntrChoices
   /\ phase' = "route" /\ UNCHANGED <<prog, vals, heap, na, S>>
 Route ==
   /\ phase = "route"
   /\ S' = ApplyAll(Idle, <<CaseLine>> \o RunCall(1) \o (IF NCalls = 2 THEN RunCall(2) ELSE <<>>) \o <<[ev |-> "done"]>>)
-  /\ phase' = "done" /\ UNCHANGED <<prog, vals, heap, na, calls>>
+  /\ phase' = "done" /\ UNCHANGED <<prog, vals, heap, na, calls, intr>>
 
 Next == Close \/ Route \/ (\E t \in Types : AddNew(t)) \/ (\E f \in 1..MaxStmts, ps \in PathLists : AddDes(f, ps))
 Spec == Init /\ [][Next]_vars
